@@ -14,6 +14,7 @@ pub fn add_signed_mul_same_len(
         a@.len() >= MIN_LEN,        // its own debug assertion; the dispatcher only comes here above THRESHOLD_KARATSUBA
     ensures final(c)@.len() == old(c)@.len(), -1 <= ret <= 1,
         val(final(c)@) + (ret as int) * pw(old(c)@.len() as int) == val(old(c)@) + sgn(sign) * (val(a@) * val(b@)),
+    decreases a@.len(), 0int       // recursion through the dispatcher: the factor length strictly decreases (checked in unit int_mul_toom3)
 @*/
 {
     /*@ hide(valn); hide(pw);   // the proof only moves val(..) / pw(..) terms around (lemmas do the unfolding) @*/
